@@ -1,6 +1,7 @@
 package sim
 
 import (
+	"bytes"
 	"fmt"
 	"math/rand/v2"
 	"os"
@@ -242,6 +243,34 @@ func evalC06(t *testing.T, c *Case, st *Stats, relax Relax) *Violation {
 			}
 			if len(probs) != len(ref.probs) {
 				return mk("walk-problems", fmt.Sprintf("torn=%v clean=%v", probs, ref.probs))
+			}
+			// the same rebuild through the filesystem's own Initialize over an empty index (what a
+			// user does after a crash), for every fourth crash point that leaves the root record intact
+			if len(ti.recs) > 0 && int64(L) >= ti.recs[0].DataOff+roundUp512(ti.recs[0].Size) && (L+int(c.Seed%4))%4 == 0 {
+				d2, err := x.W.PrefixDrive(tape, L)
+				if err != nil {
+					return &Violation{Prop: c.Prop, Oracle: "harness", Detail: err.Error()}
+				}
+				st2, ierr2 := x.W.Open(OpenOpts{Drive: d2, Index: x.W.NewIndexPath()})
+				var t2 Tree
+				if st2 != nil {
+					if ierr2 == nil {
+						t2, _ = Observe(st2.FS, "/", ObsOpts{Extra: names})
+					}
+					st2.Close()
+				}
+				after, _ := os.ReadFile(d2)
+				os.Remove(d2)
+				st.Add("rebuilds_through_initialize", 1)
+				if ierr2 != nil {
+					return mk("initialize-fails-on-torn-tape", ierr2.Error())
+				}
+				if !bytes.Equal(after, tape[:L]) {
+					return mk("initialize-modifies-torn-tape", fmt.Sprintf("the surviving tape had %d bytes, after the rebuild through Initialize %d", L, len(after)))
+				}
+				for _, diff := range diffTornTrees(got, t2, "") {
+					return mk("initialize-differs-from-indexer-rebuild", diff)
+				}
 			}
 			if torn != nil && int64(L) > torn.Off {
 				cls := "header"
